@@ -73,6 +73,19 @@ pub fn selftest_quick() -> Result<(), String> {
             return Err(format!("C14 dead root has legal moves: {}", f));
         }
     }
+    for f in c08::LOCKED {
+        let mut p = Pos::from_fen(f)?;
+        if !p.sane() {
+            return Err(format!("locked fortress not sane: {}", f));
+        }
+        for ply in 0..420 {
+            let l = p.legal();
+            if l.len() != 1 {
+                return Err(format!("locked fortress {} has {} legal moves after {} plies", f, l.len(), ply));
+            }
+            p = p.make(l[0]);
+        }
+    }
     for f in hist::MATE_ROOTS {
         let p = Pos::from_fen(f)?;
         if !p.legal().into_iter().any(|m| p.make(m).legal().is_empty()) {
